@@ -160,3 +160,16 @@ def bounds_of(s):
         if s["t"] == "I":
             b.add(e[1])
     return b
+
+
+def receiver_changed(ctx, before, what="receiver"):
+    """for operations documented to return a modified copy: the object the call was made on must be as it was (a later call on the
+    same object would otherwise start from a state nobody asked for).  -> message or None"""
+    obj = ctx.self_
+    try:
+        after = snap.tier_snap(obj) if snap.is_tier(obj) else (snap.tg_snap(obj) if snap.is_tg(obj) else None)
+    except Exception:
+        return None
+    if after is None or after == before:
+        return None
+    return "the call changed its %s: %r -> %r" % (what, before, after)
